@@ -1917,6 +1917,13 @@ def c19_file(case):
                         what = forms[(seq + len(attrs)) % len(forms)]
                     n = tw.write(what, plus_cols=(list(pv) if pv else None))
                     ev["ret"] = {"kind": "count", "n": n}
+                elif name == "wwrite_bad":
+                    # a list (or generator) whose last element is neither a description nor a tract
+                    o_ = objs[op["d"]]
+                    junk = ["not a tract", 5, None, {"a": 1}][(seq + len(attrs)) % 4]
+                    items = [o_, junk] if seq % 2 else list(o_.tracts) + [junk]
+                    n = tw.write((x_ for x_ in items) if seq % 3 == 0 else items)
+                    ev["ret"] = {"kind": "count", "n": n}
                 elif name == "wclose":
                     tw.close()
                 elif name == "wopen":
